@@ -410,12 +410,18 @@ func teardownOnly(w *World, fn *ssa.Function) (bool, string) {
 	return true, "runs only from a defer of the constructor that was registered before the deferred server stop: the server no longer serves when it runs"
 }
 
-func tablesUnderLock(w *World, r *Report, rule string) {
-	r.rule(rule, "every operation on a map table of a request-serving struct that has a mutex (peer table, webhook table) — range step, lookup, update, delete, len, hand-over to a library helper; aliases, nested tables, helpers and closures followed — has that mutex in its must-hold lockset (exclusive for writes)", 12)
-	pkgs := []string{"gossip", "webhooks", "notaryserver", "webhooksserver"}
+
+type tableInfo struct {
+	sp     tableSpec
+	tf     *tableFollower
+	nLoads int
+}
+
+// collectTables follows every mutex-guarded map field of the structs of pkgs to the operations performed on it.
+func collectTables(w *World, pkgs ...string) []tableInfo {
 	specs := tableSpecsOf(w, pkgs...)
-	li := ComputeLocks(w, func(fn *ssa.Function) bool { return isRepoFunc(fn) })
 	fns := w.RepoFuncs(pkgs...)
+	var out []tableInfo
 	for _, sp := range specs {
 		tf := &tableFollower{w: w, seenV: map[ssa.Value]bool{}, seenCell: map[ssa.Value]bool{}}
 		nLoads := 0
@@ -451,6 +457,24 @@ func tablesUnderLock(w *World, r *Report, rule string) {
 				}
 			})
 		}
+		for _, mu := range tf.pending {
+			if !tf.seenV[mu.Map] {
+				tf.escapes = append(tf.escapes, mu)
+			}
+		}
+		tf.pending = nil
+		out = append(out, tableInfo{sp, tf, nLoads})
+	}
+	return out
+}
+
+func tablesUnderLock(w *World, r *Report, rule string) {
+	r.rule(rule, "every operation on a map table of a request-serving struct that has a mutex (peer table, webhook table) — range step, lookup, update, delete, len, hand-over to a library helper; aliases, nested tables, helpers and closures followed — has that mutex in its must-hold lockset (exclusive for writes)", 12)
+	pkgs := []string{"gossip", "webhooks", "notaryserver", "webhooksserver"}
+	specs := tableSpecsOf(w, pkgs...)
+	li := ComputeLocks(w, func(fn *ssa.Function) bool { return isRepoFunc(fn) })
+	for _, ti := range collectTables(w, pkgs...) {
+		sp, tf, nLoads := ti.sp, ti.tf, ti.nLoads
 		tkey := sp.tn + "." + sp.fname
 		if nLoads == 0 && len(tf.accs) == 0 {
 			r.ok(rule, tkey+"/unused", "-", "table is never read outside the constructor")
